@@ -24,7 +24,7 @@ type Opts struct {
 var AllFeatures = []string{
 	"async", "err", "multi", "bind", "struct", "value", "sets", "lit", "ext", "ctxparam",
 	"composite", "basic", "args", "unneeded", "multi-inj", "multi-file", "dupparam",
-	"generic", "variadic", "variadic-functype", "want-unsupplied", "kalias", "extalias", "value-and-pointer", "rewrap", "struct-both-forms", "alias-basic", "ctx-provider", "implements-error", "adv-pkg-shadowed-by-later-decl", "value-literal", "multi-var-sets", "ext-method-value", "err-alias", "ctx-alias", "set-included-twice", "prov-func-var-named-type", "nested-struct-expansion", "local-provider-ext-result", "arg-ext-type", "arg-hidden-ext", "set-ref-paren", "set-decl-paren", "set-alias-var", "elem-paren", "elem-hoisted-var", "inject-spelling", "prov-func-var",
+	"generic", "variadic", "variadic-functype", "want-unsupplied", "kalias", "extalias", "value-and-pointer", "rewrap", "struct-both-forms", "alias-basic", "ctx-provider", "implements-error", "adv-pkg-shadowed-by-later-decl", "value-literal", "multi-var-sets", "ext-method-value", "err-alias", "chan-of-recv-chan", "ctx-alias", "set-included-twice", "prov-func-var-named-type", "nested-struct-expansion", "local-provider-ext-result", "arg-ext-type", "arg-hidden-ext", "set-ref-paren", "set-decl-paren", "set-alias-var", "elem-paren", "elem-hoisted-var", "inject-spelling", "prov-func-var",
 	"async-struct", "ptrrecv", "aiface", "embedded",
 }
 
@@ -424,7 +424,11 @@ func (g *gen) freshValueType(extOnly bool, label string) TypeID {
 			case 3:
 				return g.addType(Type{Kind: KChan, Elem: s})
 			case 4:
-				return g.addType(Type{Kind: KChan, Elem: s, RecvOnly: true})
+				rc := g.addType(Type{Kind: KChan, Elem: s, RecvOnly: true})
+				if g.want("chan-of-recv-chan", "chanchan", 35) {
+					return g.addType(Type{Kind: KChan, Elem: rc}) // chan (<-chan T): the parentheses matter
+				}
+				return rc
 			case 5:
 				if g.want("variadic-functype", "vft", 30) {
 					key := g.addType(Type{Kind: KBasic, Basic: "string"})
